@@ -96,7 +96,9 @@ def _replay(job):
     prog = Program(root, package=package, overrides=overrides)
     sub = Ctx(prop, "quick", program=prog, write_evidence=False)
     err = None
-    for rule in mod.RULES:
+    from .rules.common import COMMON_RULES
+
+    for rule in list(mod.RULES) + COMMON_RULES:
         try:
             rule(sub)
         except AnalysisError as ex:
